@@ -155,6 +155,38 @@ def _run_schedule(drops, merges, dim, V, cnt, log, tag):
                 [float(d.radius) for d in survivors] + [1e-300])
     n_done = 0
     paths = []
+    # a droplet merged with itself (both operands are the very same object): the volume
+    # doubles, centre and width stay; in-place and out-of-place agree
+    for si, d0 in enumerate(survivors[:3]):
+        if d0.radius <= 0:
+            continue
+        try:
+            c = d0.copy()
+            c0 = c.data.tobytes()
+            r_new = c.merge(c)
+            unchanged = c.data.tobytes() == c0
+            c2 = d0.copy()
+            r_in = c2.merge(c2, inplace=True)
+        except Exception as exc:
+            err = SutError(exc)
+            V.append(Violation("C11.O0", f"{tag}: merging a droplet with itself raised {err.text}",
+                               {"path": "self", "dim": str(dim), "cls": type(d0).__name__,
+                                "kind": "raised", "exc_type": err.exc_type, "frame": err.frame}))
+            break
+        cnt.inc("self_merges")
+        sig = {"path": "self", "dim": str(dim), "cls": type(d0).__name__}
+        want_r = rad(2 * vol(float(d0.radius), dim), dim)
+        if not rel_close(r_new.radius, want_r, 1e-13) or not rel_close(r_new.position, d0.position, 1e-13, scale):
+            V.append(Violation("C11.O1", f"{tag}: droplet {si} merged with itself gives r={r_new.radius!r}, "
+                               f"pos={r_new.position.tolist()} instead of r={want_r!r}, "
+                               f"pos={d0.position.tolist()}", {**sig, "kind": "formula"}))
+        if r_in.data.tobytes() != r_new.data.tobytes():
+            V.append(Violation("C11.O3", f"{tag}: droplet {si} merged with itself in place "
+                               f"{r_in.data} differs from the out-of-place result {r_new.data}",
+                               {**sig, "kind": "inplace_vs_new"}))
+        if not unchanged:
+            V.append(Violation("C11.O4", f"{tag}: out-of-place merge of droplet {si} with itself "
+                               f"modified it", {**sig, "kind": "self_modified"}))
     for mi, mg in enumerate(merges):
         if len(survivors) < 2:
             break
